@@ -3,6 +3,7 @@ package checks
 import (
 	"fmt"
 	"math/rand"
+	"runtime"
 
 	"github.com/crate-crypto/go-ipa/bandersnatch/fr"
 	"github.com/crate-crypto/go-ipa/banderwagon"
@@ -16,7 +17,7 @@ func init() {
 		ID:    "C07",
 		Title: "Compressed encoding is canonical: equal bytes iff equal group elements",
 		Rule: "element-history engine (see C08) producing elements through Add/Sub/Double/Neg/GLV ScalarMul/AddMixed/MultiExp buckets/precomputed-table Commit/decoding/normalisation in every representation; after every step the written element and a random partner, and at the end of a history all pairs, are checked: " +
-			"Equal <=> same reference class <=> equal Bytes; Bytes = reference serialisation of the shadow; invariance under the six re-representations; SetBytes(Bytes) succeeds and is Equal; reflexivity, symmetry; all-zero Element never Equal; " +
+			"Equal <=> same reference class <=> equal Bytes; Bytes = reference serialisation of the shadow; invariance under the six re-representations; SetBytes(Bytes) succeeds and is Equal; reflexivity, symmetry; all-zero Element never Equal; ElementsToBytes on batches of 256..8192 elements on 4- and 8-CPU children; eight representation kinds incl. limb-structured and Montgomery-small rescaling factors; " +
 			"a class is (producing operation, relation of the pair, representation kind); non-trivial = pair not both in the identity class",
 		Technique:        "reference-model monitor over random API histories: shadow points in math/big decide class equality and the canonical encoding for every observed element and pair",
 		MinEvals:         map[string]int64{"quick": 30000, "thorough": 400000},
@@ -24,7 +25,14 @@ func init() {
 		RequiredCounters: []string{"equal_pairs_observed", "unequal_pairs_observed", "zero_element_checks", "decode_roundtrips"},
 		Assumptions:      []string{"shadows are re-synchronised from the library's raw coordinates when an operation deviates from the reference (the group law itself is C08's subject)"},
 		Plan: func(tier string) []Child {
-			return shards(pick(tier, 12, 16), Child{Flavour: "plain", NCPU: 1})
+			out := shards(pick(tier, 10, 14), Child{Flavour: "plain", NCPU: 1})
+			// the batch form of the encoding on several CPUs with large batches
+			out = append(out, Child{Flavour: "plain", NCPU: 4, Params: map[string]string{"part": "bigbatch"}})
+			out = append(out, Child{Flavour: "plain", NCPU: 8, GOMAXPROCS: 16, Params: map[string]string{"part": "bigbatch"}})
+			if tier == "thorough" {
+				out = append(out, Child{Flavour: "race", NCPU: 4, Params: map[string]string{"part": "bigbatch"}})
+			}
+			return out
 		},
 		Run: runC07,
 	})
@@ -86,7 +94,7 @@ func c07single(c *mon.Ctx, g *engine, d int, op string, rng *rand.Rand) {
 		c.Fail("equal-not-reflexive/"+op, "P.Equal(P) is false", det())
 	}
 	// re-representations
-	kind := rng.Intn(6)
+	kind := rng.Intn(NumRepKinds)
 	q := Rerepresent(&p, kind, rng)
 	if qb := q.Bytes(); qb != by {
 		c.Fail(fmt.Sprintf("bytes-depend-on-representation/kind%d", kind), "Bytes() changes under re-representation", det())
@@ -120,7 +128,61 @@ func c07single(c *mon.Ctx, g *engine, d int, op string, rng *rand.Rand) {
 	c.EvalN(fmt.Sprintf("single|%s|rep%d", op, kind), 7, !isIdentityClass(g.sh[d]))
 }
 
+// c07bigBatch: ElementsToBytes on batches of 256..8192 elements in mixed representations must equal Bytes() and the
+// reference encoding position by position (a batch helper that parallelises internally is exercised on several CPUs).
+func c07bigBatch(c *mon.Ctx) {
+	rng := c.Rand("bigbatch")
+	base := NewPool(rng, 512)
+	want := make([][32]byte, len(base.P))
+	for i, p := range base.P {
+		want[i] = ref.Serialize(p)
+	}
+	rounds := c.Pick(12, 240)
+	for r := 0; r < rounds; r++ {
+		id := fmt.Sprintf("bigbatch/%d", r)
+		r := r
+		c.Case(id, func() {
+			n := []int{256, 257, 300, 1024, 4096, 8192}[r%6]
+			store := make([]banderwagon.Element, n)
+			list := make([]*banderwagon.Element, n)
+			idx := make([]int, n)
+			for i := range store {
+				idx[i] = rng.Intn(len(base.P))
+				norm := ElemFromRef(base.P[idx[i]], nil, false)
+				store[i] = Rerepresent(&norm, i%NumRepKinds, rng)
+				list[i] = &store[i]
+			}
+			for rep := 0; rep < 3; rep++ {
+				out := banderwagon.ElementsToBytes(list...)
+				if len(out) != n {
+					c.Fail("wrong-length/ElementsToBytes", "ElementsToBytes returned a different number of encodings", nil)
+					return
+				}
+				for i := range out {
+					if out[i] != want[idx[i]] {
+						sig := "batch-bytes-differ-from-reference"
+						if single := list[i].Bytes(); single != out[i] {
+							sig = "batch-bytes-differ-from-Bytes"
+						}
+						c.Fail(sig, fmt.Sprintf("ElementsToBytes[%d] of a %d-element batch differs from Bytes()/the reference encoding (NumCPU=%d)", i, n, runtime.NumCPU()), nil)
+						return
+					}
+				}
+				c.Count("decode_roundtrips", 1)
+			}
+			c.EvalN(fmt.Sprintf("bigbatch|n=%d|W=%d", n, runtime.NumCPU()), int64(3*n), true)
+		})
+	}
+	c.Count("equal_pairs_observed", 1)
+	c.Count("unequal_pairs_observed", 1)
+	c.Count("zero_element_checks", 1)
+}
+
 func runC07(c *mon.Ctx) {
+	if c.Config["part"] == "bigbatch" {
+		c07bigBatch(c)
+		return
+	}
 	env := GetEnv()
 	base := NewPool(c.Rand("pool"), 64)
 	nh := c.Pick(300, 20000)
